@@ -20,19 +20,58 @@ T = [
     ('C01L', 'MOV_L_LD_POSTINC', 2, '.M', 2, 'getEr st.regs (nib op2 3) &&& ADDRESS_MASK', 2, '{ i := 2, m := 2, n := 2 }'),
     ('C01L', 'MOV_L_ST_IND', 2, '.M', 2, 'getEr st.regs (nib op2 3 &&& 7) &&& ADDRESS_MASK', None, '{ i := 2, m := 2 }'),
     ('C01L', 'MOV_L_ST_PREDEC', 2, '.M', 2, '(getEr st.regs (nib op2 3 &&& 7) - 4) &&& ADDRESS_MASK', 2, '{ i := 2, m := 2, n := 2 }'),
+    # displacement / absolute forms (C08D / C08W / C08L / C08X) and the remaining C01P forms: relative to the state after
+    # the operand words have been fetched
+    ('C08D', 'MOV_B_LD_D16', 2, '.L', 1, '(getEr s1.regs (nib op 3) + d.signExtend 32) &&& ADDRESS_MASK', None, '{ i := 2, l := 1 }'),
+    ('C08D', 'MOV_B_ST_D16', 2, '.L', 1, '(getEr s1.regs (nib op 3 &&& 7) + d.signExtend 32) &&& ADDRESS_MASK', None, '{ i := 2, l := 1 }'),
+    ('C08D', 'MOV_B_LD_AA16', 2, '.L', 1, 'getAddrAbs16 a', None, '{ i := 2, l := 1 }'),
+    ('C08D', 'MOV_B_ST_AA16', 2, '.L', 1, 'getAddrAbs16 a', None, '{ i := 2, l := 1 }'),
+    ('C08D', 'MOV_B_LD_AA24', 3, '.L', 1, '(hi.setWidth 32 <<< 16) ||| lo.setWidth 32', None, '{ i := 3, l := 1 }'),
+    ('C08D', 'MOV_B_ST_AA24', 3, '.L', 1, '(hi.setWidth 32 <<< 16) ||| lo.setWidth 32', None, '{ i := 3, l := 1 }'),
+    ('C08W', 'MOV_W_LD_D16', 2, '.M', 1, '(getEr s1.regs (nib op 3) + d.signExtend 32) &&& ADDRESS_MASK', None, '{ i := 2, m := 1 }'),
+    ('C08W', 'MOV_W_ST_D16', 2, '.M', 1, '(getEr s1.regs (nib op 3 &&& 7) + d.signExtend 32) &&& ADDRESS_MASK', None, '{ i := 2, m := 1 }'),
+    ('C08W', 'MOV_W_LD_AA16', 2, '.M', 1, 'getAddrAbs16 a', None, '{ i := 2, m := 1 }'),
+    ('C08W', 'MOV_W_ST_AA16', 2, '.M', 1, 'getAddrAbs16 a', None, '{ i := 2, m := 1 }'),
+    ('C08W', 'MOV_W_LD_AA24', 3, '.M', 1, '(hi.setWidth 32 <<< 16) ||| lo.setWidth 32', None, '{ i := 3, m := 1 }'),
+    ('C08W', 'MOV_W_ST_AA24', 3, '.M', 1, '(hi.setWidth 32 <<< 16) ||| lo.setWidth 32', None, '{ i := 3, m := 1 }'),
+    ('C08L', 'MOV_L_LD_D16', 3, '.M', 2, '(getEr s1.regs (nib op2 3) + d.signExtend 32) &&& ADDRESS_MASK', None, '{ i := 3, m := 2 }'),
+    ('C08L', 'MOV_L_ST_D16', 3, '.M', 2, '(getEr s1.regs (nib op2 3 &&& 7) + d.signExtend 32) &&& ADDRESS_MASK', None, '{ i := 3, m := 2 }'),
+    ('C08L', 'MOV_L_LD_AA16', 3, '.M', 2, 'getAddrAbs16 a &&& ADDRESS_MASK', None, '{ i := 3, m := 2 }'),
+    ('C08L', 'MOV_L_ST_AA16', 3, '.M', 2, 'getAddrAbs16 a &&& ADDRESS_MASK', None, '{ i := 3, m := 2 }'),
+    ('C08L', 'MOV_L_LD_AA24', 4, '.M', 2, '((hi.setWidth 32 <<< 16) ||| lo.setWidth 32) &&& ADDRESS_MASK', None, '{ i := 4, m := 2 }'),
+    ('C08L', 'MOV_L_ST_AA24', 4, '.M', 2, '((hi.setWidth 32 <<< 16) ||| lo.setWidth 32) &&& ADDRESS_MASK', None, '{ i := 4, m := 2 }'),
+    ('C08X', 'MOV_B_LD_D24', 4, '.L', 1, '(getEr s2.regs (nib op 3) + ((hi.setWidth 32 <<< 16) ||| lo.setWidth 32)) &&& ADDRESS_MASK', None, '{ i := 4, l := 1 }'),
+    ('C08X', 'MOV_B_ST_D24', 4, '.L', 1, '(getEr s2.regs (nib op 3 &&& 7) + ((hi.setWidth 32 <<< 16) ||| lo.setWidth 32)) &&& ADDRESS_MASK', None, '{ i := 4, l := 1 }'),
+    ('C08X', 'MOV_W_LD_D24', 4, '.M', 1, '(getEr s2.regs (nib op 3) + ((hi.setWidth 32 <<< 16) ||| lo.setWidth 32)) &&& ADDRESS_MASK', None, '{ i := 4, m := 1 }'),
+    ('C08X', 'MOV_W_ST_D24', 4, '.M', 1, '(getEr s2.regs (nib op 3 &&& 7) + ((hi.setWidth 32 <<< 16) ||| lo.setWidth 32)) &&& ADDRESS_MASK', None, '{ i := 4, m := 1 }'),
+    ('C08X', 'MOV_L_LD_D24', 5, '.M', 2, '(getEr s3.regs (nib op2 3) + ((hi.setWidth 32 <<< 16) ||| lo.setWidth 32)) &&& ADDRESS_MASK', None, '{ i := 5, m := 2 }'),
+    ('C08X', 'MOV_L_ST_D24', 5, '.M', 2, '(getEr s3.regs (nib op2 3 &&& 7) + ((hi.setWidth 32 <<< 16) ||| lo.setWidth 32)) &&& ADDRESS_MASK', None, '{ i := 5, m := 2 }'),
+    ('C01P', 'MOV_B_ST_AA8', 1, '.L', 1, 'getAddrAbs8 (op.setWidth 8)', None, '{ i := 1, l := 1 }'),
+    ('C01P', 'MOV_W_LD_POSTINC', 1, '.M', 1, 'getEr st.regs (nib op 3) &&& ADDRESS_MASK', 2, '{ i := 1, m := 1, n := 2 }'),
+    ('C01P', 'MOV_W_ST_PREDEC', 1, '.M', 1, '(getEr st.regs (nib op 3 &&& 7) - 2) &&& ADDRESS_MASK', 2, '{ i := 1, m := 1, n := 2 }'),
+    # STC.W CCR,<memory> (C07S)
+    ('C07S', 'STC_W_IND', 2, '.M', 1, 'getEr st.regs (nib op2 3 &&& 7) &&& ADDRESS_MASK', None, '{ i := 2, m := 1 }'),
+    ('C07S', 'STC_W_D16', 3, '.M', 1, '(getEr s1.regs (nib op2 3 &&& 7) + d.signExtend 32) &&& ADDRESS_MASK', None, '{ i := 3, m := 1 }'),
+    ('C07S', 'STC_W_AA16', 3, '.M', 1, 'getAddrAbs16 a', None, '{ i := 3, m := 1 }'),
+    ('C07S', 'STC_W_AA24', 4, '.M', 1, '(hi.setWidth 32 <<< 16) ||| lo.setWidth 32', None, '{ i := 4, m := 1 }'),
+    ('C07S', 'STC_W_D24', 5, '.M', 1, '(getEr s3.regs (nib op2 3) + ((hi.setWidth 32 <<< 16) ||| lo.setWidth 32)) &&& ADDRESS_MASK', None, '{ i := 5, m := 1 }'),
 ]
 out = '''/-
-  C20, memory MOV forms (generated by tools/gen_c20x.py from the proof scripts of C01M / C01N / C01L) — the charge of
+  C20, memory MOV forms (generated by tools/gen_c20x.py from the proof scripts of C01M / C01N / C01L / C01P / C08D / C08W / C08L / C08X / C07S) — the charge of
   each form is the manual's mix: its fetch cycles looked up at the instruction's own address, its data cycles (kind L
   for a byte, M for a word / each half of a long) looked up AT THE OPERAND'S EFFECTIVE ADDRESS, plus the internal
   states of the post-increment / pre-decrement forms — all with the bus settings of the state the instruction leaves
   (a store into the bus controller is charged at the new settings, as the code does).
 -/
 import H8.Props.C01L
+import H8.Props.C01P
+import H8.Props.C08L
+import H8.Props.C08X
+import H8.Props.C07S
 import H8.Props.C20M
 set_option linter.unusedSimpArgs false
 namespace H8.Props.C20X
-open H8 H8.Lemmas H8.Props H8.Props.C01M H8.Props.C01N H8.Props.C01L
+open H8 H8.Lemmas H8.Props H8.Props.C01M H8.Props.C01N H8.Props.C01L H8.Props.C01P H8.Props.C08D H8.Props.C08W H8.Props.C08L H8.Props.C08X H8.Props.C07S
 
 /-- `c` = `costI i` + the data cycles `n` × kind `k` at address `a` (+ `extra` internal states), looked up in `s` -/
 def ChargedAt (i : BitVec 8) (k : Kind) (n : BitVec 8) (a : BitVec 32) (extra : BitVec 8) (s : Cpu) (c : BitVec 8) : Prop :=
@@ -83,9 +122,12 @@ for mod, name, i, kind, n, addr, extra, mix in T:
         raise SystemExit('%s: cost macro %s not found' % (name, macro))
     prefix = proof[:proof.index('  ' + macro)]
     # the Spec instruction is not needed for the charge: drop hi (and i) from the signature and the script
-    head = re.sub(r'\n    \(hi : [^\n]*?\)(?= \(h :)', '\n   ', head)
+    head = re.sub(r"\(hi'? : Spec\.instrOf [^\n]*? = some i\) ?", '', head)
+    head = re.sub(r"\(hi'? : Spec\.instrOf [^\n]*? = some \(\.stcW ea\)\) ?", '', head).replace(' (ea : Spec.EA)', '')
+    head = re.sub(r'\n\s*\n', '\n', head)
     head = head.replace(' (i : Spec.Instr)', '')
-    prefix = re.sub(r'  rw \[Spec\.instrOf_\w+\] at hi; simp only \[Option\.some\.injEq\] at hi; subst hi\n', '', prefix)
+    prefix = re.sub(r"  rw \[Spec\.instrOf_\w+\] at hi'?; simp only \[Option\.some\.injEq\] at hi'?; subst hi'?\n", '', prefix)
+    prefix = re.sub(r"  rw \[Spec\.instrOf_\w+\] at hi'?; simp only \[Option\.some\.injEq, Spec\.Instr\.stcW\.injEq\] at hi'?; subst hi'?\n", '', prefix)
     ex = extra if extra is not None else 0
     out += '%s :\n    ChargedAt %d %s %d (%s) %d st\' c ∧ Spec.Form.mix .%s = %s := by\n  refine ⟨?_, rfl⟩\n%s  %s\n\n' % (
         head.replace('theorem ' + name, 'theorem cost_' + name), i, kind, n, addr, ex, name, mix, prefix,
